@@ -40,8 +40,11 @@ Lemma timer_fires : forall s j T,
   tw (fst (twstep s (TE WTimer T))) = WSend j JTimeout /\
   wres (snd (twstep (fst (twstep s (TE WTimer T))) (TE WTake T))) = Some (j, JTimeout).
 Proof.
-  intros s j T Hb Hl. unfold twstep at 2. unfold twstep at 2. rewrite Hb, Hl. cbn.
-  split; reflexivity.
+  intros s j T Hb Hl.
+  assert (E : twstep s (TE WTimer T) =
+              ({| tw := WSend j JTimeout; tleft := tleft s; tfull := tfull s |}, wnone)).
+  { unfold twstep. rewrite Hb, Hl. reflexivity. }
+  rewrite E. cbn. split; reflexivity.
 Qed.
 
 Lemma timeout_not_postponed : forall s j es T,
@@ -82,11 +85,22 @@ Lemma timed_refines : forall s e,
                 snd (twstep s e) = snd (wstep (tw s) e0)).
 Proof.
   intros s e. destruct e as [e0 T|]; [|left; split; reflexivity].
-  destruct e0 as [j pc|fin prog| | | | | |]; try (right; exists _, T; split; [reflexivity|];
-    unfold twstep; destruct (wstep (tw s) _) as [s' o]; split; reflexivity).
+  destruct e0 as [j pc|fin prog| | | | | |].
   - right. exists (WJob j pc), T. split; [reflexivity|]. unfold twstep.
     destruct (wstep (tw s) (WJob j pc)) as [s' o]. destruct (wacc o); split; reflexivity.
+  - right. exists (WMsg fin prog), T. split; [reflexivity|]. unfold twstep.
+    destruct (wstep (tw s) (WMsg fin prog)) as [s' o]. split; reflexivity.
   - unfold twstep. destruct (is_busy (tw s) && Nat.eqb (tleft s) 0).
     + right. exists WTimer, T. split; [reflexivity|]. destruct (wstep (tw s) WTimer) as [s' o]. split; reflexivity.
     + left. split; reflexivity.
+  - right. exists WDisconnect, T. split; [reflexivity|]. unfold twstep.
+    destruct (wstep (tw s) WDisconnect) as [s' o]. split; reflexivity.
+  - right. exists WCancel, T. split; [reflexivity|]. unfold twstep.
+    destruct (wstep (tw s) WCancel) as [s' o]. split; reflexivity.
+  - right. exists WIntCancel, T. split; [reflexivity|]. unfold twstep.
+    destruct (wstep (tw s) WIntCancel) as [s' o]. split; reflexivity.
+  - right. exists WTake, T. split; [reflexivity|]. unfold twstep.
+    destruct (wstep (tw s) WTake) as [s' o]. split; reflexivity.
+  - right. exists WQuit, T. split; [reflexivity|]. unfold twstep.
+    destruct (wstep (tw s) WQuit) as [s' o]. split; reflexivity.
 Qed.
